@@ -702,8 +702,10 @@ def str_format(I, fmt, arg, node=None):
                     out.append(zs(a))
                 elif is_intlike(a):
                     out.append(int_to_str(zi(a)))
+                elif a is None or isinstance(a, bool):
+                    out.append(z3.StringVal(str(a)))
                 else:
-                    raise OutOfReach("%s of " + repr(a))
+                    out.append(I.ctx.fresh("str_of_object").z)      # str() of an object: not modelled
             elif p == "%d" and is_intlike(a):
                 out.append(int_to_str(zi(a)))
             else:
@@ -1416,6 +1418,9 @@ def _next(I, args, kwargs):
     raise OutOfReach("next(%r)" % (it,))
 
 
+import codecs as _codecs
+for _n in ("BOM_UTF8", "BOM_UTF16_LE", "BOM_UTF16_BE", "BOM_UTF32_LE", "BOM_UTF32_BE"):
+    LIBRARY["codecs." + _n] = getattr(_codecs, _n)
 LIBRARY["warnings.warn"] = NativeFn("warnings.warn", lambda I, a, k: None)     # warnings are not errors (assumption)
 
 
